@@ -442,8 +442,67 @@ fn gen_extsample(p: &mut Prng, id: String, first: bool) -> FwCase {
     FwCase { id, kind: "extsample".into(), machines, fp: 0.0, fb: 0.0, t0: 0, calls, rng_seed: p.next(), extreme: 0, ni: None, prefix }
 }
 
+/// C02: fractions that are not exactly representable in f32 / that make the padding share hit the
+/// limit exactly: limit k/d (machine-level, framework-level or both), d-k NormalSent and then
+/// PaddingSent reports one per call while the machine re-pads on every event.
+fn gen_c02frac(p: &mut Prng, id: String) -> FwCase {
+    use enum_map::enum_map;
+    use maybenot::action::Action;
+    use maybenot::dist::{Dist, DistType};
+    use maybenot::event::Event;
+    use maybenot::state::{State, Trans};
+    let k0 = |v: f64| Dist { dist: DistType::Uniform { low: v, high: v }, start: 0.0, max: 0.0 };
+    let d = *p.pick(&[3u64, 5, 6, 7, 9, 10, 10, 11, 13, 20, 30, 50, 100, 1000]);
+    let k = p.range(1, d - 1);
+    let f = k as f64 / d as f64;
+    let mode = p.below(3); // 0: machine fraction, 1: framework fraction, 2: both (the other one laxer)
+    let nm = p.range(1, 2) as usize;
+    let mut machines = Vec::new();
+    for mi in 0..nm {
+        let mut t = enum_map! { _ => vec![] };
+        for ev in [Event::NormalSent, Event::PaddingSent, Event::NormalRecv, Event::TunnelSent] {
+            t[ev] = vec![Trans(0, 1.0)];
+        }
+        let mut st = State::new(t);
+        st.action = Some(Action::SendPadding { bypass: false, replace: false, timeout: k0(mi as f64), limit: None });
+        let mfrac = match mode {
+            0 => f,
+            1 => 0.0,
+            _ => if p.chance(1, 2) { f } else { (f + 1.0) / 2.0 },
+        };
+        let budget = *p.pick(&[0u64, 0, 0, 1, 2]);
+        machines.push(Machine::new(budget, mfrac, 0, 0.0, vec![st]).expect("c02frac machine"));
+    }
+    let fp = match mode {
+        0 => 0.0,
+        1 => f,
+        _ => if p.chance(1, 2) { f } else { (f + 1.0) / 2.0 },
+    };
+    let mult = p.range(1, 3);
+    let mut evs: Vec<TriggerEvent> = Vec::new();
+    for _ in 0..(d - k) * mult {
+        evs.push(TriggerEvent::NormalSent);
+    }
+    for _ in 0..(k * mult + 3) {
+        evs.push(TriggerEvent::PaddingSent { machine: MachineId::from_raw(p.below(nm as u64) as usize) });
+    }
+    // sometimes interleave instead of front-loading the normal packets
+    if p.chance(1, 3) {
+        let n = evs.len();
+        for i in (1..n).rev() {
+            let j = p.below(i as u64 + 1) as usize;
+            evs.swap(i, j);
+        }
+    }
+    evs.push(TriggerEvent::NormalRecv);
+    let mut t: i128 = 0;
+    let calls = evs.into_iter().map(|e| { t += 1000; (t, vec![e]) }).collect();
+    FwCase { id, kind: "c02frac".into(), machines, fp, fb: 0.0, t0: 0, calls, rng_seed: p.next(), extreme: 0, ni: None, prefix: vec![] }
+}
+
 pub fn gen_kind(kind: &str, p: &mut Prng, id: String) -> Option<FwCase> {
     match kind {
+        "c02frac" => Some(gen_c02frac(p, id)),
         "extsample" => {
             let first = id.ends_with("-0");
             Some(gen_extsample(p, id, first))
